@@ -462,7 +462,7 @@ func cmdRandom(args []string) {
 		for i := 0; i < *length && !rec.Dead; i++ {
 			phase := (i * 4 / *length) % 4
 			pIns := []int{80, 50, 20, 55}[phase]
-			rec.DumpAll = i%*dumpEvery == 0
+			rec.DumpAll = *dumpEvery < 100000 && i%*dumpEvery == 0 // 100000: no dumps at all (keys of 64 KiB)
 			x := r.Intn(100)
 			switch {
 			case x < pIns:
